@@ -418,12 +418,12 @@ def task_routes(t):
                     tgt = S.new_bdd(torder)
                     back = tgt.load(fname, levels=False)
                 elif route == 'upper-p':
-                    fname = 'C12R-%d.P' % pid
+                    fname = 'C12Upper-%d.P' % pid
                     src.dump(fname, roots)
                     tgt = S.new_autoref()
                     back = tgt.load(fname)
                 elif route == 'upper-json':
-                    fname = 'C12R-%d.JSON' % pid
+                    fname = 'C12Upper-%d.JSON' % pid
                     src.dump(fname, roots)
                     tgt = S.new_autoref(torder)
                     back = tgt.load(fname)
